@@ -126,6 +126,7 @@ def run(tier, seed):
     cov = res.coverage
     tot = {'schedules': 0, 'traces': 0, 'preempted': 0, 'ran_ahead': 0}
     per, outcomes_multi, active = [], 0, 0
+    completed = []
     for r in results:
         for m in r['machinery']:
             res.machinery_errors.append('%s (N=%d): %s' % (r['label'], r['threads'], m))
@@ -144,7 +145,9 @@ def run(tier, seed):
             # active workers there are k! serial orders per phase and only the first 200 are run
             cov['n16_sanity_explorations_capped'] = cov.get('n16_sanity_explorations_capped', 0) + 1
         per.append({'workload': r['label'], 'threads': r['threads'], 'schedules': r['schedules'], 'distinct_traces': r['traces'], 'distinct_outcomes': len(r['outcomes']),
-                    'max_decisions': r['max_decisions'], 'active_workers': r['workers'], 'capped': r['capped']})
+                    'max_decisions': r['max_decisions'], 'active_workers': r['workers'], 'capped': r['capped'], 'preemption_bound_completed': r.get('bound_completed')})
+        if r['threads'] != 16:
+            completed.append(r.get('bound_completed', bound))
         for mode, w in r['violations']:
             res.violation(wsweep.cls(set(r['tags']) | {'N=%d' % r['threads']}), mode, w)
     cov['evaluations'] = tot['schedules']
@@ -152,7 +155,9 @@ def run(tier, seed):
     cov['states'] = tot['traces']          # distinct schedule traces (each is one complete interleaving)
     cov['transitions'] = sum(p['max_decisions'] for p in per)  # scheduling decisions along the longest run of each workload (lower bound)
     cov['traces_validated_against_impl'] = tot['schedules']
-    cov['preemption_bound_completed'] = bound if cov.get('exhaustive', True) else None
+    # the bound up to which *every* exploration ran all schedules (explorations that hit their budget of runs completed a lower one)
+    cov['preemption_bound_completed'] = min(completed) if completed else None
+    cov['preemption_bound_attempted'] = bound
     cov['schedules_with_preemption'] = tot['preempted']
     cov['schedules_where_a_worker_ran_ahead_of_the_failing_patch'] = tot['ran_ahead']
     cov['workloads'] = len(W)
